@@ -4,9 +4,9 @@ from . import common as C
 from . import c06
 
 MANIFEST = dict(
-   technique="Translation validation per generated program (gozodgen run on the rule matrix in a temp dir; go/parser + `go build` of every emitted file; T{}.Schema().Parse vs FromStruct[T]().Parse on boundary values) + Lean 4 theorems over the regenerated tables (emitted method chains vs observed FromStruct behaviour, `decide`) and about a transcription of the generator's string-literal formatting; round 2: Lean transcription of gozodgen's OWN tag splitter / rule parser (cmd/gozodgen/analyzer.go) proved equal to the pkg/tagparser model on a decidable region (witnesses outside), tied by a differential run through the real functions (go-build overlay hook), a Lean transcription of the field emitter checked textually against every emitted expression, and wide programs (several files, many structs, ~17 fields per struct, repeated tag texts, all rule orders, tricky parameters) compiled and run against FromStruct",
-   text="Lean: c13_regex_quote (the regex escaping round-trips through a Go string literal for every pattern without newline), c13_quote_partial / c13_quote_full_false (`default=` parameters are emitted unescaped: a quote or backslash breaks the literal), c13_equiv_partial / c13_typechecks_partial over the regenerated Gen.genTable x Gen.tagTable (`decide`), with the excluded cells being listed known findings and witness theorems; c13_split_partial / c13_parse_partial (genSplit = tagparser.splitParts, genParseTag = tagparser.parseTag on splitRegion / parseRegion, all strings), c13_split_witnesses / c13_parse_witnesses (the full statements are false), c13_emit_reads_tagparser. Tie: every run regenerates both tables from the working tree, compiles the generated programs against the library and compares the two schemas on every probe; the chain semantics used in Lean (denote) is validated against the compiled generated code on every probe.",
-   note="Round 4b: the transcription of the writer is parameterised by structure facts read from writer.go / analyzer.go with go/ast on every run (Gen/WriterFacts.lean: which variant of each of 12 decisions the tree contains — the pinned one or the one of a pending/C13-*.diff), so model and theorems follow a landed patch without an edit; typing of container constructors (explicit instantiation, gozod.Record's value schema must parse to exactly V: output-type patterns of the constructors read by reflection); c13_illtyped_rows_are_open + C13W.c13_open_compile_classes_exact: over 517 rows (every kind of field type x the tags of its class) the files that do not type-check are exactly the `open:` does-not-compile classes of known-findings.txt; c13_equiv_partial covers 421 compiling matrix cells on /repo d766956 (FromStruct side repaired by the C06 fixes). New ops: mname (several names in one field declaration), bfile (structs in _test.go / build-constrained files), JSON-valued default= on slice fields. Round 4: Gen/MethodTable.lean (reflection over the library: every constructor gozodgen names, every schema type reachable through the methods it can emit, ALL their methods) + GenTyped.wellTyped: c13_welltyped_partial proves every expression emitted for a scalar field (any rule list of the region) well typed against the WHOLE regenerated table (c13_table_closed), witnesses outside; the typing judgement and the emitted text are compared with go build / the written file on every matrix cell and ~450 one-struct programs over every field kind (texpr). Termination: GenTerm (typesToReflectType over named-type environments), c13_term_acyclic / c13_term_struct_graphs, c13_term_full_false (`type A []A`), term ops run gozodgen on such packages. PARTIAL: 'the written file is valid Go that type-checks' is DECIDED by go/parser and `go build -gcflags=-e` in the tie; the Lean judgement covers constructor/method existence, arity, inferability and constant representability, not full Go typing. The matrix is finite (C06 matrix: documented rules x field types x both orders of two rules x boundary probes) plus sampled parameter strings; behaviour is compared on structs grouping the type-checking cells (field expressions checked textually identical to the one-struct-per-cell output) and on a seeded sample compiled one struct at a time. Trusted: Lean kernel, axioms propext/Classical.choice/Quot.sound, the Go toolchain, harness and comparer. Go string-literal reader in Lean models one-character escapes only.",
+   technique="Translation validation per generated program (gozodgen run on the rule matrix and on wide programs in a temp dir; go/parser + `go build` of every emitted file; T{}.Schema().Parse vs FromStruct[T]().Parse on boundary values) + Lean 4: a transcription of gozodgen's own tag splitter / rule parser (GenSplit), of its writer (GenEmit.emitChain: one structure of constructor expression + calls, pinned to the writer of /repo HEAD), of the analyzer's type conversion (GenTerm.convS / convV), a typing judgement over the regenerated method table of the library (GenTyped.wellTyped) and a partial semantics of emitted chains (GenSem.denoteChain); theorems over all strings / all type environments where the definitions are recursive, and `decide` over regenerated tables (rule matrix, method table, kind x tag rows) where they are finite",
+   text="PROVED. Terminates: c13_term — for EVERY environment of named types (recursive ones included) and field type the live conversion typesToReflectTypeOn (convS: transcription with the stack of named types, fuel) returns, and returns convV (total; measure lemmas convV_measure_named/_child); c13_fix_agrees_acyclic (65a0069 changed nothing where the old code terminated); legacy witnesses c13_term_diverges / c13_term_full_false about the analyzer before 65a0069. Literals: c13_regex_quote, c13_quote_fixed (all strings). Tag parser: c13_split_partial / c13_parse_partial on decidable regions of all strings, witnesses outside. From the INPUT of every cell of the rule matrix (field type x rules, 2036 cells): c13_gen_is_emit (the text in the generated file = render(emitChain .head)), c13_typechecks (status ok; decided by go build), c13_matrix_welltyped (the model's judgement says ok on the same cells), c13_equiv_partial (denoteChain of the emitted chain = FromStruct's verdict on every probe, outside three classes defined on the input: C06-known cell, uuid+url on a string, min beyond int64 on uint/uint64; witnesses in C13W). Typing: c13_table_closed(+_containers) over the whole regenerated method table, c13_rows_judged / c13_illtyped_rows_are_open / c13_rows_partial over the regenerated kind x tag table (~780 rows = wide.go kinds x kindTags; exact unjudged class), c13_welltyped_partial is a LIFTING lemma (any number and order of calls of the allowed shapes; its region is a condition on the emitted calls, its conclusion the file-level judgement incl. imports). c13_writer_pinned: the 15 structure facts read off cmd/gozodgen equal the pinned HEAD variant. DECIDED BY THE RUN ONLY: that a generated file is valid Go and type-checks (go/parser, go build), behaviour of both schemas on the probes, everything about programs outside the matrix (wide programs, quote cells, multi-name fields, build-constrained files, second run over own output), gozodgen's exit status.",
+   note="Round 4c (audit B): H1 — the termination theorems are about the live analyzer (convS/convV), the driver renders convV's RESULT and the run compares it with the reflect.Type the real StructAnalyzer built for the same package (op tconv, overlaid hook; this tie found 7bd98e1 — and the texpr / wcompile ops 1af466f and 43524fe, unused regexp / time imports —: with an unresolvable import the type checker stopped at the first error and every field fell back to the AST inference — a second gozodgen run dropped rules; op regen). M2 — no flag is probed any more: GenEmit.WriterFacts.head is pinned, Gen/WriterFacts.lean is an expectation (c13_writer_pinned); the legacy writer / analyzer / quoting survive as named legacy witnesses only. M1 — one Call type; emitChain is connected to the text on disk by proof (c13_gen_is_emit) and to the semantics (denoteChain reads the same structure); exclusions are predicates of field type x rules. M3 — denoteChain and ruleHolds? return none for an unknown call / constructor / argument / (rule, probe) pair; c13_welltyped_partial concludes the file-level judgement (imports included). LOW — kindRows is regenerated (Gen/KindRows.lean) and read with parseTy / genParseTag. PARTIAL: the Lean typing judgement covers constructor/method existence, arity, inferability, constant representability and imports, not full Go typing; denoteChain knows the calls of the documented rules only; the AST fallback of the analyzer (getReflectTypeFromAST) is not modelled; the matrix is finite. Trusted: Lean kernel, axioms propext/Classical.choice/Quot.sound, the Go toolchain, harness and comparer, the overlaid hook file (calls smartSplitTagRules / parseTagRules / AnalyzePackage and prints).",
    design="DESIGN.md §5 C13")
 
 MODULES = ["Gozod.Proofs.C13", "Gozod.Proofs.C13Split", "Gozod.Proofs.C13Typed", "Gozod.Proofs.C13Term"]
@@ -135,7 +135,7 @@ def open_compile_classes():
     """classes <c> of the lines `open: property=C13 key=wcompile:notypecheck:<c>:*` of known-findings.txt"""
     cls = []
     for ent in C.load_known("C13")[0]:
-        m = re.match(r"wcompile:notypecheck:(.*?)(?::self-reference)?:\*$", ent["key"])
+        m = re.match(r"wcompile:notypecheck:(.*?)(?::self-reference|:regexp|:time)?:\*$", ent["key"])
         if m and m.group(1) not in cls: cls.append(m.group(1))
     return cls
 
@@ -305,12 +305,14 @@ def make_key(doc, reasons=None, unexplained=()):
             cls = wcompile_class(cm) if im == "notypecheck" else None
             if cls == "enum+method":
                 cause = "enum+method"      # gozod.Enum(…).Min(1): ZodEnum has no such method
-            elif "enum" in ns and re.search(r'["\\]', dec_runes(t[4])): cause = "enum-literal"
+            elif cls is None and "enum" in ns and re.search(r'["\\]', dec_runes(t[4])): cause = "enum-literal"
             elif cls is not None:
                 # round 4 (field types beyond string/int/int64/float64): the class is read off the compiler's first message
                 fty = re.sub(r"\bS\d+\b", "SELF", t[2])
                 if cls.startswith("constant-not-representable:"): return "wcompile:notypecheck:%s:fty=%s,rules=%s" % (cls, fty, t[3])
-                if cls == "unused-import": return "wcompile:notypecheck:unused-import:rules=" + t[3]
+                if cls == "unused-import":
+                    pk = re.search(r'\\?"([a-z/]+)\\?" imported and not used', cm)
+                    return "wcompile:notypecheck:unused-import:%s:rules=%s" % (pk.group(1) if pk else "?", t[3])
                 if cls == "slice-cannot-infer-T" and "SELF" in fty:
                     # gozod.Slice(gozod.Lazy(…)) for a slice of the enclosing struct: text pinned by writer_test.go, no type argument
                     return "wcompile:notypecheck:slice-cannot-infer-T:self-reference:fty=%s" % fty
@@ -630,16 +632,19 @@ def _run(res):
         sum(v for k, v in h.items() if k.startswith("wcell:"))))
     res.coverage["rule"] += (" Round 4: %d texpr cases (every matrix cell + one-struct programs over every field kind the writer distinguishes: emitted text and compile status vs "
         "GenEmit.emitChain / GenTyped.wellTyped over the regenerated method table; status histogram %s); %d termination cases (circular struct graphs, self-referential named types, "
-        "deep nesting; %s)." % (sum(v for k, v in h.items() if k.startswith("texpr:")), {k[6:]: v for k, v in h.items() if k.startswith("texpr:")},
-        sum(v for k, v in h.items() if k.startswith("term:")), {k[5:]: v for k, v in h.items() if k.startswith("term:")}))
+        "deep nesting; %s), each also with the RESULT of the conversion (tconv: reflect.Type built by the real analyzer vs GenTerm.convV, %s); %d regen cases (gozodgen twice on one directory)." % (
+        sum(v for k, v in h.items() if k.startswith("texpr:")), {k[6:]: v for k, v in h.items() if k.startswith("texpr:")},
+        sum(v for k, v in h.items() if k.startswith("term:")), {k[5:]: v for k, v in h.items() if k.startswith("term:")},
+        {k[6:]: v for k, v in h.items() if k.startswith("tconv:")}, sum(v for k, v in h.items() if k.startswith("regen:"))))
     res.assumptions += [
         "the C06 matrix observations are reused from .build/cache/c13-tagtable/<digest> when the digest of every input of that run (library sources outside cmd/, C06 harness package, hx, go.mod/go.sum, docs/tags.md, Go version) is unchanged",
         "Gen/MethodTable.lean: reflection (reflect.Type.Method, NumIn, IsVariadic, Implements) over the library linked into the harness; generic constructors are observed on one instantiation; inferability of type parameters read from the func declarations by go/ast",
-        "the overlaid hook file (harness/cmd/c13/wide.go: hookSrc) only calls smartSplitTagRules / NewStructAnalyzer().parseTagRules and prints their results",
+        "the overlaid hook file (harness/cmd/c13/wide.go: hookSrc) only calls smartSplitTagRules / NewStructAnalyzer().parseTagRules / AnalyzePackage and prints their results",
+        "GenTerm models the type-checker path of getReflectType (info.Types filled); the AST fallback (getReflectTypeFromAST) is not modelled — tconv runs on a directory holding the source file only, regen compares two runs textually",
         "documented meaning of a 2-3-rule tag on a probe (vlib/c13.py: doc_verdict; regex through Python re) is used only to NAME the side that is wrong in a failure-class key",
         "type-checking is decided by go/parser and `go build -gcflags=-e` (Go toolchain trusted), not in Lean",
         "gozodgen emits a field's schema expression independently of the other fields of the struct (checked textually on every run)",
-        "docs/tags.md reading as in C06; the chain semantics `denote` is validated on every probe against the compiled generated code",
+        "docs/tags.md reading as in C06; the chain semantics GenSem.denoteChain (evaluated on GenSem.emitCell of the cell's input) is validated on every probe against the compiled generated code (column g=)",
     ]
     return res.finish()
 
